@@ -169,6 +169,17 @@ def size_ok(bound, v, symbolic, depth=0):
     return True
 
 
+def carries_list(ty, depth=0) -> bool:
+    """Does the inferred type say the value is (or holds) a list?  (A type variable does not: the alias
+    analysis makes no claim about values it does not know to be lists.)"""
+    tn = type(ty).__name__
+    if tn == 'ListType':
+        return True
+    if tn == 'TupleType' and depth < 6:
+        return any(carries_list(t, depth + 1) for t in ty.elts)
+    return False
+
+
 def _list_objects(v, depth=0, out=None):
     """(depth, object) for v and every list nested in it along list levels."""
     if out is None:
@@ -205,6 +216,7 @@ def check_trace(F: Facts, events):
         if not (int(cls.value) & atom_of(v)):
             add(analysis, 'a run-time value is outside the reported value class', node, cls, v, var=var)
 
+    escaped, keep_alive = set(), []
     for ev in events:
         k = ev[0]
         if k == 'val':
@@ -251,12 +263,15 @@ def check_trace(F: Facts, events):
             if di is None or di not in F.reaching(pi):
                 add('reaching_defs(phi)', 'the value at a phi was bound by a definition not listed as reaching it',
                     f'{name} (phi #{pi})', sorted(F.reaching(pi)), f'bound by #{di}')
+        elif k == 'escaped':
+            escaped.update(id(o) for o in ev[1])
+            keep_alive.extend(ev[1])
         elif k == 'lists':
             _, stmt, env, defs = ev
             # equal-length classes and aliasing among the list variables in scope right now
             symbolic = {}
             objs = []       # (name, def, depth, object)
-            for name, v in env.items():
+            for name, (v, structure) in env.items():
                 di = defs.get(name)
                 if di is None:
                     continue
@@ -266,7 +281,9 @@ def check_trace(F: Facts, events):
                     size_ok(sz_d[d], v, local)
                     for sv, lens in local.items():
                         symbolic.setdefault(sv, set()).update(lens)
-                for depth, o in _list_objects(v):
+                if not carries_list(ty_d.get(d)):
+                    continue
+                for depth, o in structure:
                     objs.append((name, d, depth, o))
             for sv, lens in symbolic.items():
                 if len(lens) > 1:
@@ -276,7 +293,7 @@ def check_trace(F: Facts, events):
                     for j in range(i + 1, len(objs)):
                         n1, d1, k1, o1 = objs[i]
                         n2, d2, k2, o2 = objs[j]
-                        if o1 is o2 and (n1 != n2 or k1 != k2):
+                        if o1 is o2 and (n1 != n2 or k1 != k2) and id(o1) not in escaped:
                             r1, r2 = F.al.region_of(d1, k1), F.al.region_of(d2, k2)
                             if r1 is None or r2 is None or r1 is not r2:
                                 add('alias', 'two places holding the same list are not reported as possibly aliased', stmt,
